@@ -21,7 +21,10 @@ EXPLANATION = (
     "the property classifier for every kind its validator accepts; (D3) assignments to a named entry's `default` outside its "
     "constructor never store a possibly-None value unguarded; (D4) a converter returning an unnamed entry returns the metadata "
     "it was handed; (W1) every public ingestion entry finalises (validates defaults of) each id in [base_id, next_id) with "
-    "base_id read before any allocation, and finalisation reaches the type-level and property-level default checks."
+    "base_id read before any allocation, and finalisation reaches the type-level and property-level default checks; (D5) the "
+    "functions that take a JSON default value apart by struct property look members up by the property's wire name: a "
+    "StructProperty's `name` (the Rust identifier) is used there only inside formatting macros or as the value of the "
+    "`StructPropertyRename::None` arm of a match on that property's `rename`."
 )
 ASSUMPTIONS = ["serde_json::Value::as_* / is_* semantics as documented", "the rendered literal's numeric value is not decided (see DESIGN.md)"]
 
@@ -413,3 +416,31 @@ def run(facts, rep, tier):
                    "`for index in %s..self.next_id { entry.finalize(self)?; insert }`" % (base[1] if base else "base") if loop_ok else "no loop finalising every id in [base_id, next_id) with `?`", c.fns[h["fn"]].get("sp"))
             last = block_last(h["body"])
             rep.ob("C06.W1", "ok-after-finalize:%s" % h["fn"], src(last).startswith("Ok("), "the fn's tail is Ok(..) after the loop")
+
+    # ------------------------------------------------------------ D5 wire names when a default object is taken apart
+    n_uses = 0
+    for h in c.user_fns():
+        f = c.fns.get(h["fn"], {})
+        takes_json = any("serde_json::Value" in t or "serde_json::Map" in t for t in f.get("inputs", []))
+        reads_rename = any(strip_refs(m["scrut"]).get("k") == "field" and strip_refs(m["scrut"])["name"] == "rename" and (c.ty(strip_refs(m["scrut"]).get("bty")) or "").replace("&", "").strip().endswith("StructProperty")
+                           for m, _ in nodes(h["body"], "match") if m.get("src") == "normal") and any("TypeSpace" in t for t in f.get("inputs", [])) and "TokenStream" not in f.get("output", "") and not any("OutputSpace" in t for t in f.get("inputs", []))
+        if not (takes_json or reads_rename):
+            continue
+        k_in_fn = 0
+        for n, anc in walk(h["body"]):
+            if n.get("k") == "field" and n["name"] == "name" and (c.ty(n.get("bty")) or "").replace("&", "").replace("mut ", "").strip().endswith("StructProperty"):
+                n_uses += 1
+                in_macro = any(a.get("k") == "macro" for a in anc)
+                in_none_arm = False
+                for i, a in enumerate(anc):
+                    if a.get("k") is None and "pat" in a and "body" in a and i > 0 and anc[i - 1].get("k") == "match":
+                        m = anc[i - 1]
+                        sc = strip_refs(m["scrut"])
+                        if sc.get("k") == "field" and sc["name"] == "rename" and src(strip_refs(sc["e"])) == src(strip_refs(n["e"])) and [v.split("::")[-1] for v in pat_top_variants(a["pat"])] == ["None"]:
+                            in_none_arm = True
+                ok = in_macro or in_none_arm
+                rep.ob("C06.D5", "wire-name:%s#%d" % (h["fn"], k_in_fn), ok,
+                       ("identifier use inside a formatting macro" if in_macro else "value of the `StructPropertyRename::None` arm") if ok else
+                       "`%s` (the Rust identifier) is used outside `match rename { None => name, Rename(r) => r, .. }` in a function that takes a JSON default apart: a renamed property's member is not found under its JSON name, so its default is dropped or moved to the flattened member" % src(n), n.get("sp") or h.get("sp"))
+                k_in_fn += 1
+    rep.floor("C06.D5", "uses of StructProperty.name in fns that take a JSON value", n_uses, 5)
